@@ -185,7 +185,15 @@ def judge(case):
         elif eff == 2 and len(gap) != 0:
             bad = 'remove: %d blanks' % len(gap)
         elif eff == 0 and l1 == l2:
-            had = c2 > ca.col_end if ca.col_end else None
+            # was there a blank in front of the second token in the input?  Read from the input text itself (the character in front of
+            # the token's original column, tabs expanded), not from the end column the tool recorded for the first token
+            had = None
+            if 0 < l2 <= len(src_lines):
+                sl = src_lines[l2 - 1].decode('utf-8', 'replace').rstrip('\r').expandtabs(8)
+                if 2 <= c2 <= len(sl) and sl[c2 - 1:c2 - 1 + len(tb)] == tb:
+                    had = sl[c2 - 2] == ' '
+            if had is None:
+                had = c2 > ca.col_end if ca.col_end else None
             if had is not None and (len(gap) > 0) != bool(had):
                 bad = 'ignore: input %s a blank, output has %d' % ('had' if had else 'had no', len(gap))
         if bad and eff == 2 and case.lang in corpus.CFAMILY and layout.needs_sep(ta, tb, case.lang if case.lang != 'OC+' else 'CPP'):
